@@ -858,7 +858,7 @@ class E3(object):
             w3, sv = self.mk_slc(w, 'sub', None, ci)
             return [(w, none()), (w3, some(sv))]
         # ---- iteration
-        if p == 'core::slice::<impl [T]>::iter' or (name == 'into_iter' and args and args[0][0] in ('slc', 'cstr')):
+        if p in ('core::slice::<impl [T]>::iter', 'core::str::<impl str>::bytes') or (name == 'into_iter' and args and args[0][0] in ('slc', 'cstr')):
             ln = self.slc_len(I, w, args[0], ci.arg_tys[0] if ci.arg_tys else None)
             return [(w, ('iterv', (ln,) if ln is not None else ()))]
         if name == 'rev' and args and args[0][0] == 'iterv':
@@ -1482,12 +1482,35 @@ def check_value_set(lib, res, sites, cfg, keymap):
     return done
 
 
+def check_witnesses(res, lib):
+    """Encapsulation the analyses assume (user code cannot reach the state the unchecked operations rely on), decided by
+    rustc: compile-fail doc tests with compiling twins (fixtures/witness)."""
+    from .. import witness
+    results, out = witness.run(lib)
+    nw = 0
+    for name, kind, ok, detail in sorted(results):
+        if kind == 'witness':
+            nw += 1
+            res.oblige("W|%s" % name, ok, sample="witness %s: application code does not compile" % name, violation=None if ok else dict(
+                rule='C03.encapsulation', key="C03|encapsulation|%s" % name,
+                msg="compile-fail witness %s (fixtures/witness/src/lib.rs, %s) now compiles: application code can reach state whose "
+                    "invariants the library's unchecked operations rely on" % (name, detail)))
+        else:
+            res.oblige("W|twin|%s" % name, ok, violation=None if ok else dict(
+                rule='ANCHOR', key="C03|witness-twin|%s" % name,
+                msg="the compiling twin of witness %s no longer compiles (%s): the witness would pass for the wrong reason" % (name, detail)))
+    if nw < 9:
+        raise KeyError("only %d compile-fail witnesses ran" % nw)
+    res.extra['witnesses'] = sorted("%s/%s: %s" % (n, k, 'ok' if o else 'FAILED') for n, k, o, d in results)
+
+
 def run(ctx, res):
     from .. import absint
     old = absint.WIDEN_AT
     absint.WIDEN_AT = 16      # small counters (lengths 1..4 of UTF-8 sequences) stay exact in the value-set domain
     try:
         run_(ctx, res)
+        check_witnesses(res, lib_crate(ctx.crates('default')))
     finally:
         absint.WIDEN_AT = old
 
